@@ -148,6 +148,18 @@ def gen(repo: Path):
                              and isinstance(n.value.value, int) and not isinstance(n.value.value, bool)
                              and any(isinstance(t, ast.Name) and t.id == "max_tokens" for t in n.targets)})
 
+    bun_tree = ast.parse((repo / "clematis/engine/stages/t3/bundle.py").read_text())
+    cc = _func(bun_tree, "cfg_caps")
+    bdef = {}
+    for node in ast.walk(cc):
+        if (isinstance(node, ast.Call) and isinstance(node.func, ast.Attribute) and node.func.attr == "get"
+                and len(node.args) == 2 and isinstance(node.args[0], ast.Constant) and isinstance(node.args[1], ast.Constant)):
+            bdef[node.args[0].value] = node.args[1].value
+    ab = _func(bun_tree, "assemble_bundle")
+    fwd = sorted({n.slice.value for n in ast.walk(ab)
+                  if isinstance(n, ast.Subscript) and isinstance(n.value, ast.Name) and n.value.id == "slice_caps"
+                  and isinstance(n.slice, ast.Constant) and isinstance(n.slice.value, str)})
+
     def b(x):
         return "true" if x else "false"
 
@@ -202,6 +214,9 @@ def defaultEpsEditBits : Nat := {_bits(pc['_DEFAULT_EPS_EDIT'])}
 def defaultOps : Int := {int(dflt.get('ops', -1))}
 def defaultTokens : Int := {int(dflt.get('tokens', -1))}
 def defaultKRetrieval : Int := {int(dflt.get('k_retrieval', -1))}
+/-- `bundle.py:cfg_caps` default of `t3.max_ops_per_turn`, and the slice-budget keys `assemble_bundle` writes into `slice_caps` -/
+def bundleDefaultMaxOps : Int := {int(bdef.get('max_ops_per_turn', -1))}
+def forwardedSliceKeys : List (List Nat) := {_cps_list(fwd)}
 def speakDefaultTokens : List Int := [{', '.join(str(x) for x in speak_defaults)}]
 
 end Clem.Gen.T3Consts
